@@ -773,7 +773,19 @@ pub fn run_differential(case: &Case) -> Outcome {
                 .stack_size(8 << 20)
                 .spawn_scoped(sc, || {
                     simcore::entropy::seed_thread_entropy(case.seed);
-                    let out = run_case(&c, Mode::C20);
+                    // a panic of the code under test is a finding (logging must never panic), not a harness fault
+                    let out = match simcore::panics::guarded(|| run_case(&c, Mode::C20)) {
+                        Ok(o) => o,
+                        Err(rec) => {
+                            let mut o = Outcome::default();
+                            if rec.in_harness {
+                                o.harness_error = Some(format!("harness panic: {} at {}", rec.message, rec.location));
+                            } else {
+                                o.violate("no-panic", rec.site(), format!("{} at {} (exporter configuration {:?})", rec.message, rec.location, c.qlog), 0);
+                            }
+                            o
+                        }
+                    };
                     let (w, a) = LAST_HASHES.with(|h| h.get());
                     (out, (w, a, LAST_UNTIMED.with(|h| h.get())))
                 })
